@@ -3,7 +3,9 @@ import H2V.Lemmas.CodecReader
 /-
   Codec lemmas, part 7 (goal B at the level of `decode_frame`): every non-header frame that
   `decode_frame` delivers is a frame of RFC 9113 §6 with the same content — except for the two
-  stream-identifier checks h2 does not make at this layer.
+  one stream-identifier check h2 does not make at this layer (RST_STREAM on stream 0, made later in
+  `Streams::recv_reset`).  GOAWAY on a non-zero stream used to be a second exception (finding F11);
+  `decode_frame` now rejects it and the theorem needs no hypothesis for it.
 -/
 namespace H2V.Lemmas.Codec
 open H2V H2V.Model.Frame H2V.Model.CodecRead
@@ -32,13 +34,12 @@ theorem simple_frame {r r' : Reader} {x : Except FErr Model.Frame.Frame} {f : Mo
   | ok g => simp only [Prod.mk.injEq, DF.frame.injEq] at h; exact ⟨by rw [h.2], h.1.symm⟩
 
 /-- `decode_frame` soundness for DATA, PRIORITY, RST_STREAM, SETTINGS, PING, GOAWAY, WINDOW_UPDATE.
-    The two excluded cases are exactly the frames h2 lets through here although §6.4 / §6.8 make them
-    connection errors (`loadReset_stream_zero`, `loadGoAway_nonzero_stream`). -/
+    The excluded case is exactly the frame h2 lets through here although §6.4 makes it a connection
+    error (`loadReset_stream_zero`). -/
 theorem decodeFrame_sound (r r' : Reader) (bytes : Bytes) (f : Model.Frame.Frame)
     (hk : (Head.parse bytes).kind ∈ [0, 2, 3, 4, 6, 7, 8])
     (h : decodeFrame r bytes = (r', .frame f))
-    (hx : ¬ ((Head.parse bytes).kind = 3 ∧ (Head.parse bytes).sid = 0))
-    (hy : ¬ ((Head.parse bytes).kind = 7 ∧ (Head.parse bytes).sid ≠ 0)) :
+    (hx : ¬ ((Head.parse bytes).kind = 3 ∧ (Head.parse bytes).sid = 0)) :
     r' = r ∧ ∃ f', Corr f f' ∧
       Spec.Frame.ofParts (bytes.getD 3 0) (bytes.getD 4 0) (Spec.Frame.u31 (bytes.drop 5)) (bytes.drop 9) = .ok f' := by
   have hhd := Head.parse_eq_spec bytes
@@ -52,7 +53,7 @@ theorem decodeFrame_sound (r r' : Reader) (bytes : Bytes) (f : Model.Frame.Frame
   split at h
   · simp [connErr] at h
   · simp only [List.mem_cons, List.not_mem_nil, or_false] at hk
-    simp only at hx hy
+    simp only at hx
     rcases hk with rfl | rfl | rfl | rfl | rfl | rfl | rfl
     · -- DATA
       simp only at h
@@ -95,6 +96,9 @@ theorem decodeFrame_sound (r r' : Reader) (bytes : Bytes) (f : Model.Frame.Frame
       intro a v hf; subst hf; cases h1; exact ofParts_ne_settings _ _ _ _ _ _ (by decide) h2
     · -- GOAWAY
       simp only at h
+      by_cases hy : sid ≠ 0
+      · rw [if_pos hy] at h; simp [connErr] at h
+      rw [if_neg hy] at h
       obtain ⟨hl, hr⟩ := simple_frame h
       obtain ⟨f', h1, h2⟩ := loadGoAway_sound ⟨7, fl, sid⟩ _ _ (by simpa using hy) hl
       refine ⟨hr, f', Corr_of_toSpec h1 ?_, h2⟩
@@ -111,19 +115,21 @@ theorem decodeFrame_sound_parse (r r' : Reader) (bytes : Bytes) (f : Model.Frame
     (hlen : 9 ≤ bytes.length) (hcut : bytes.length = 9 + rd24 bytes)
     (hk : (Head.parse bytes).kind ∈ [0, 2, 3, 4, 6, 7, 8])
     (h : decodeFrame r bytes = (r', .frame f))
-    (hx : ¬ ((Head.parse bytes).kind = 3 ∧ (Head.parse bytes).sid = 0))
-    (hy : ¬ ((Head.parse bytes).kind = 7 ∧ (Head.parse bytes).sid ≠ 0)) :
+    (hx : ¬ ((Head.parse bytes).kind = 3 ∧ (Head.parse bytes).sid = 0)) :
     ∃ f', Corr f f' ∧ Spec.Frame.parse bytes = some (.ok f') := by
-  obtain ⟨_, f', h1, h2⟩ := decodeFrame_sound r r' bytes f hk h hx hy
+  obtain ⟨_, f', h1, h2⟩ := decodeFrame_sound r r' bytes f hk h hx
   refine ⟨f', h1, ?_⟩
   unfold Spec.Frame.parse
   rw [u24_eq_rd24, if_neg (by omega), if_neg (by omega), h2]
 
-/-- the exceptions do reach the caller of `decode_frame`: RST_STREAM on stream 0 … -/
+/-- the exception does reach the caller of `decode_frame`: RST_STREAM on stream 0 -/
 example : (decodeFrame (Reader.new 16384) [0, 0, 4, 3, 0, 0, 0, 0, 0, 0, 0, 0, 8]).2 matches DF.frame (.reset 0 8) := rfl
-/-- … and GOAWAY on stream 1 -/
-example : (decodeFrame (Reader.new 16384) [0, 0, 8, 7, 0, 0, 0, 0, 1, 0, 0, 0, 0, 0, 0, 0, 0]).2 matches DF.frame (.goAway 0 0 []) := rfl
+/-- GOAWAY on stream 1 is caught here (since the fix for F11) -/
+example : (decodeFrame (Reader.new 16384) [0, 0, 8, 7, 0, 0, 0, 0, 1, 0, 0, 0, 0, 0, 0, 0, 0]).2 matches DF.err (.goAway 1 "") := rfl
 /-- whereas PRIORITY on stream 0 is caught here -/
 example : (decodeFrame (Reader.new 16384) [0, 0, 5, 2, 0, 0, 0, 0, 0, 0, 0, 0, 1, 16]).2 matches DF.err (.goAway 1 "") := rfl
+/-- PUSH_PROMISE carrying only the promised id (block to follow in CONTINUATION): valid per §6.6,
+    connection error PROTOCOL_ERROR from `decode_frame` (see `loadPushPromiseHead_four_octets`) -/
+example : (decodeFrame (Reader.new 16384) [0, 0, 4, 5, 0, 0, 0, 0, 1, 0, 0, 0, 2]).2 matches DF.err (.goAway 1 "") := rfl
 
 end H2V.Lemmas.Codec
